@@ -9,6 +9,8 @@ from .shapes import Maker, Shape, T
 from .values import (V, NONE, NoneV, Opt, StrV, EnumV, Rec, Ref, TupleV, BytesV, ClassV, FuncV, BoundV,
                      BuiltinV, ExcV, Opaque, RaiseV, Obj, Unsupported, is_term, is_bool, is_real)
 
+GHOST_WORDS = ("ghost(", "n_sent", "sent0", "n_updates", "n_emitted", "emitted0", "n_timers", "timer0", "n_ls_requests",
+               "the_cam", "gn_req", "handed()", "suppressed(", "the_denm", "n_denms")
 SPEC_AST_FORMS = {"old", "implies", "forall", "exists", "ite", "iff"}
 
 
@@ -27,6 +29,11 @@ class SpecMixin:
         loc.setdefault("$qual", "<spec>")
         loc.setdefault("$depth", 0)
         s0 = st.with_loc(loc)
+        if loc.get("$old") is not None:
+            self.__dict__.setdefault("_old_stack", []).append(loc["$old"])
+            pushed_old = True
+        else:
+            pushed_old = False
         self.spec_mode += 1
         self._undef_depth = getattr(self, "_undef_depth", 0) + 1
         saved_pol = getattr(self, "spec_polarity", "prove")
@@ -36,6 +43,8 @@ class SpecMixin:
         finally:
             self.spec_mode -= 1
             self._undef_depth -= 1
+            if pushed_old:
+                self._old_stack.pop()
             self.spec_polarity = saved_pol
         n = len(st.pc)
         res = None
@@ -92,6 +101,8 @@ class SpecMixin:
 
     def form_old(self, e, st):
         old = st.loc.get("$old")
+        if old is None and getattr(self, "_old_stack", None):
+            old = self._old_stack[-1]
         if old is None:
             raise SpecError("old() outside a two-state specification")
         env = dict(st.loc)
@@ -208,7 +219,24 @@ class SpecMixin:
         if name == "uf":
             # uf("name", "real"|"int"|"bool", *args): uninterpreted function application
             fname, rng = args[0].s, args[1].s
-            xs = [self.to_real(a) if is_real(a) else a for a in args[2:]]
+            xs = []
+            for a in args[2:]:
+                from .values import SymStr
+                if isinstance(a, SymStr):
+                    xs.append(a.term)
+                    continue
+                if isinstance(a, StrV):
+                    xs.append(self.str_id(a.s))
+                    continue
+                if isinstance(a, Opt):
+                    xs.append(a.isnone)
+                    a = a.val
+                elif isinstance(a, NoneV):
+                    xs.append(z3.BoolVal(True))
+                    a = z3.RealVal(0)
+                elif is_real(a):
+                    xs.append(z3.BoolVal(False))
+                xs.append(a)
             rs = {"real": z3.RealSort(), "int": self.T.val(0).sort(), "bool": z3.BoolSort()}[rng]
             f = self.get_uf(fname, [x.sort() for x in xs], rs)
             yield st, f(*xs)
@@ -284,6 +312,13 @@ class SpecMixin:
             dead = False
             n_before = len(post.pc)
             for label, text in c.ensures.items():
+                if c.callsite_ensures is not None:
+                    if label not in c.callsite_ensures:
+                        continue
+                elif any(w in text for w in GHOST_WORDS):
+                    # clauses about ghost logs describe the callee run in isolation (logs start empty); the
+                    # caller's logs are not updated by a contract application, so such clauses are not assumed
+                    continue
                 try:
                     g = self.spec_bool(post, text, env2, "assume", c.spec_module)
                 except SpecError:
